@@ -45,6 +45,15 @@ type observed struct {
 	harnessErr string
 	forcedOpen bool
 	notes      []string
+
+	// GoSimple family
+	gs        bool
+	proto     int // HTTP major version the shell's request came with
+	extraReqs int // requests beyond the one expected
+	pokes     int // input bytes sent beyond the plan's
+	// reads of a readx item made because the child was seen blocked writing
+	wblockHits int
+	napBehind  int64 // bytes the child had written but the consumer not yet read when its nap began (-1: no nap)
 }
 
 type runner struct {
@@ -62,6 +71,12 @@ type runner struct {
 	inGate    atomic.Bool
 	inputDone atomic.Bool
 	goDone    chan struct{}
+
+	// strictInput: the input counts as over only when all of it has been
+	// handed over (GoSimple family: the input side writes, it is not read).
+	strictInput bool
+	napped      atomic.Bool  // a nap item was reached
+	napBacklog  atomic.Int64 // bytes consumed when the (last) nap began
 
 	pid      int
 	zSince   time.Time
@@ -144,8 +159,77 @@ func (r *runner) childExited() bool {
 	if pid == 0 {
 		return false
 	}
-	st := procState(pid, r.self)
-	return st == 0 || st == 'Z'
+	switch procState(pid, r.self) {
+	case 0:
+		return true
+	case 'Z':
+		// The state is that of the thread group's leader.  Other threads of
+		// the (Go) puppet may still be on their way out, and as long as one
+		// of them is, the process's descriptors are open: a write to its
+		// stdin pipe would still succeed.  Exited means: nobody but the dead
+		// leader is left.
+		return taskCount(pid) <= 1
+	}
+	return false
+}
+
+// childBlockedWriting: some thread of the child is inside write(2) on its
+// standard output or standard error and not running, which is to say blocked:
+// the pipe is full and so is everything behind it.  (An observed state, read
+// from /proc/<pid>/task/<tid>/syscall; false when that cannot be read.)
+func (r *runner) childBlockedWriting() bool {
+	pid := r.childPid()
+	if pid == 0 {
+		return false
+	}
+	base := "/proc/" + strconv.Itoa(pid) + "/task"
+	es, err := os.ReadDir(base)
+	if err != nil {
+		return false
+	}
+	for _, e := range es {
+		b, err := os.ReadFile(base + "/" + e.Name() + "/syscall")
+		if err != nil {
+			continue
+		}
+		f := strings.Fields(string(b))
+		if len(f) < 2 || f[0] != strconv.Itoa(syscall.SYS_WRITE) {
+			continue
+		}
+		if f[1] == "0x1" || f[1] == "0x2" {
+			return true
+		}
+	}
+	return false
+}
+
+// wblockMax: how long a readx item in wblock mode waits for the child to be
+// seen blocked before it reads on regardless.
+const wblockMax = 50 * time.Millisecond
+
+// waitChildBlocked waits until the child is blocked writing (true), or has
+// exited, or max has passed (real time: the fallback that keeps a consumer
+// going whose child waits for something else).
+func (r *runner) waitChildBlocked(max time.Duration) bool {
+	end := time.Now().Add(max)
+	for {
+		if r.childBlockedWriting() {
+			return true
+		}
+		if r.aborted.Load() || r.childExited() || !time.Now().Before(end) {
+			return false
+		}
+		time.Sleep(100 * time.Microsecond)
+	}
+}
+
+// taskCount is the number of threads pid still has (0: cannot tell / gone).
+func taskCount(pid int) int {
+	es, err := os.ReadDir("/proc/" + strconv.Itoa(pid) + "/task")
+	if err != nil {
+		return 0
+	}
+	return len(es)
 }
 
 // reaped: the child has exited and has been waited for (then settle a
@@ -304,19 +388,16 @@ func dirCount(dir string) int64 {
 // runPlan runs one real process under pl and reports what was seen.
 // stuckCap is how long the run may go without any progress.
 func runPlan(pl *plan, dir string, stuckCap time.Duration) *observed {
+	if pl.cfg.Fam == famGoSimple {
+		return runPlanGS(pl, dir, stuckCap)
+	}
 	ob := &observed{}
 	self, err := os.Executable()
 	if err != nil {
 		ob.harnessErr = "os.Executable: " + err.Error()
 		return ob
 	}
-	r := &runner{pl: pl, dir: dir, self: os.Getpid(), abort: make(chan struct{}), goDone: make(chan struct{})}
-	r.consGate.Store("")
-	for i, st := range pl.child {
-		if st.K == "cwait" {
-			r.cwaits = append(r.cwaits, cw{step: i, n: st.N})
-		}
-	}
+	r := newRunner(pl, dir)
 	pj, _ := json.Marshal(&puppetPlan{Dir: dir, Steps: pl.child})
 	cmd := exec.Command(self)
 	cmd.Env = append(os.Environ(), puppetEnv+"="+string(pj))
@@ -336,59 +417,106 @@ func runPlan(pl *plan, dir string, stuckCap time.Duration) *observed {
 	consDone := make(chan struct{})
 	go func() {
 		defer close(consDone)
-		buf := make([]byte, maxChunk)
-		read := func(sz int) bool {
-			n, err := out.Read(buf[:sz])
-			if n > 0 {
-				ob.account(buf[:n])
-				r.noteConsumed(n)
-			}
-			if err != nil {
-				if !r.aborted.Load() {
-					ob.ended = true
-					ob.endEOF = err == io.EOF
-				}
-				return false
-			}
-			return true
+		r.consume(ob, out.Read)
+	}()
+	r.supervise(ob, consDone, stuckCap, func() { _ = out.Close() })
+	r.readResult(ob)
+	return ob
+}
+
+func (r *runner) readResult(ob *observed) {
+	if b, err := os.ReadFile(filepath.Join(r.dir, "result")); err == nil {
+		var pr puppetResult
+		if json.Unmarshal(b, &pr) == nil {
+			ob.res = &pr
 		}
-		for _, it := range pl.cons {
-			switch it.K {
-			case "rgate":
-				var cond func() bool
-				switch it.G {
-				case "reaped":
-					cond = r.reaped
-				case "go_returned":
-					cond = r.goReturned
-				case "input_done":
-					cond = r.inputDone.Load
+	}
+}
+
+// consume is the consumer of the output stream: it follows the plan's
+// consumer items, reading through rd, and then reads to the end of the stream.
+func (r *runner) consume(ob *observed, rd func([]byte) (int, error)) {
+	pl := r.pl
+	buf := make([]byte, maxChunk)
+	read := func(sz int) bool {
+		n, err := rd(buf[:sz])
+		if n > 0 {
+			ob.account(buf[:n])
+			r.noteConsumed(n)
+		}
+		if err != nil {
+			if !r.aborted.Load() {
+				ob.ended = true
+				ob.endEOF = err == io.EOF
+			}
+			return false
+		}
+		return true
+	}
+	for _, it := range pl.cons {
+		switch it.K {
+		case "rgate":
+			var cond func() bool
+			switch it.G {
+			case "reaped":
+				cond = r.reaped
+			case "go_returned":
+				cond = r.goReturned
+			case "input_done":
+				cond = r.inputDone.Load
+			}
+			r.consGate.Store(it.G)
+			ok := r.waitCond(cond)
+			r.consGate.Store("")
+			if !ok {
+				return
+			}
+		case "read":
+			for rem := it.N; rem > 0; {
+				sz := it.Sz
+				if sz > rem {
+					sz = rem
 				}
-				r.consGate.Store(it.G)
-				ok := r.waitCond(cond)
-				r.consGate.Store("")
-				if !ok {
+				before := r.consumed.Load()
+				if !read(sz) {
 					return
 				}
-			case "read":
-				for rem := it.N; rem > 0; {
-					sz := it.Sz
-					if sz > rem {
-						sz = rem
-					}
-					before := r.consumed.Load()
-					if !read(sz) {
-						return
-					}
-					rem -= int(r.consumed.Load() - before)
+				rem -= int(r.consumed.Load() - before)
+			}
+		case "readx":
+			// the slowest party until the child has exited
+			for !r.childExited() {
+				if r.aborted.Load() || !read(it.Sz) {
+					return
+				}
+				if it.N > 0 {
+					time.Sleep(time.Duration(it.N) * time.Microsecond)
+				}
+				if it.G == "wblock" && r.waitChildBlocked(wblockMax) {
+					ob.wblockHits++
 				}
 			}
+		case "nap":
+			// real time, in slices, so that the run is seen to be alive
+			r.napBacklog.Store(r.consumed.Load())
+			r.napped.Store(true)
+			for end := time.Now().Add(time.Duration(it.N) * time.Millisecond); time.Now().Before(end); {
+				if r.aborted.Load() {
+					return
+				}
+				r.prog.Add(1)
+				time.Sleep(20 * time.Millisecond)
+			}
 		}
-		for read(pl.drain) {
-		}
-	}()
+	}
+	for read(pl.drain) {
+	}
+}
 
-	// supervise: both must finish; no progress for stuckCap means stuck
+// supervise waits until the consumer and Go have both finished.  No progress
+// for stuckCap means stuck: the state is judged, then everything is opened,
+// the child killed and the stream closed (closeOut).
+func (r *runner) supervise(ob *observed, consDone chan struct{}, stuckCap time.Duration, closeOut func()) {
 	tick := time.NewTicker(50 * time.Millisecond)
 	defer tick.Stop()
 	cd, gd := consDone, r.goDone
@@ -402,7 +530,7 @@ func runPlan(pl *plan, dir string, stuckCap time.Duration) *observed {
 			gd = nil
 		case <-tick.C:
 			simkit.Heartbeat.Add(1)
-			p := r.prog.Load() + dirCount(dir)
+			p := r.prog.Load() + dirCount(r.dir)
 			if p != last {
 				last, lastMove = p, time.Now()
 			} else if time.Since(lastMove) > stuckCap {
@@ -410,38 +538,31 @@ func runPlan(pl *plan, dir string, stuckCap time.Duration) *observed {
 			}
 		}
 	}
-	if stuck {
-		ob.goReturned = gd == nil
-		r.judgeStuck(ob, cd == nil, gd == nil)
-		// clean up: open everything, kill the child, close the stream
-		r.doAbort()
-		if pid := r.childPid(); pid != 0 && procState(pid, r.self) != 0 {
-			_ = syscall.Kill(pid, syscall.SIGKILL)
-		}
-		_ = out.Close()
-		t := time.NewTimer(cleanupCap)
-		for cd != nil || gd != nil {
-			select {
-			case <-cd:
-				cd = nil
-			case <-gd:
-				gd = nil
-			case <-t.C:
-				ob.notes = append(ob.notes, "goroutines of the shell left behind after abort")
-				cd, gd = nil, nil
-			}
-		}
-		t.Stop()
-	} else {
+	if !stuck {
 		ob.goReturned = true
+		return
 	}
-	if b, err := os.ReadFile(filepath.Join(dir, "result")); err == nil {
-		var pr puppetResult
-		if json.Unmarshal(b, &pr) == nil {
-			ob.res = &pr
+	ob.goReturned = gd == nil
+	r.judgeStuck(ob, cd == nil, gd == nil)
+	// clean up: open everything, kill the child, close the stream
+	r.doAbort()
+	if pid := r.childPid(); pid != 0 && procState(pid, r.self) != 0 {
+		_ = syscall.Kill(pid, syscall.SIGKILL)
+	}
+	closeOut()
+	t := time.NewTimer(cleanupCap)
+	for cd != nil || gd != nil {
+		select {
+		case <-cd:
+			cd = nil
+		case <-gd:
+			gd = nil
+		case <-t.C:
+			ob.notes = append(ob.notes, "goroutines of the shell left behind after abort")
+			cd, gd = nil, nil
 		}
 	}
-	return ob
+	t.Stop()
 }
 
 // judgeStuck decides what a run without progress means.  Only states that
@@ -461,7 +582,7 @@ func (r *runner) judgeStuck(ob *observed, consDone, goDone bool) {
 	found := func(inv, sig, msg string) {
 		ob.stuckFound = &simkit.Found{Property: "C14", Invariant: inv, Signature: sig, Message: msg + " (" + ob.stuck + ")"}
 	}
-	inputOver := r.inputDone.Load() || !r.inGate.Load()
+	inputOver := r.inputDone.Load() || (!r.inGate.Load() && !r.strictInput)
 	switch {
 	case !consDone && gate == "" && exited && inputOver:
 		found("stream-ends", "no end of stream after the command exited",
